@@ -5,7 +5,7 @@ from concurrent.futures import ProcessPoolExecutor
 
 import numpy as np
 
-from .. import common as C, gen, scen, bkd, trk
+from .. import common as C, gen, scen, bkd, trk, translators
 from ..runner import Check
 from . import bkgen, drvcommon as D
 
@@ -124,7 +124,7 @@ def tracker_runs(r, quick):
 
 
 def run():
-    chk = Check("C15", props_modules=["GFO.Props.C15", "GFO.Props.LocalRuns"])
+    chk = Check("C15", props_modules=["GFO.Props.C15", "GFO.Props.LocalRuns", "GFO.Gen.TrackerGenCheck"], gen_steps=(translators.gen_tracker,))
     chk.build_and_audit()
     r = C.rng("C15")
     quick = C.tier() != "thorough"
